@@ -27,6 +27,7 @@ func checkC06(c *Ctx) {
 	c06PRF(c)
 	c06Suite(c)
 	c06Immutable(c)
+	c06Policy(c)
 }
 
 type hsRole struct {
@@ -421,81 +422,36 @@ func exprString(e ast.Expr) string {
 // c06Immutable: the master secret is shared by reference (the exporter closure, the client session cache, the
 // ticket state): after it has been derived nothing writes into its bytes.
 func c06Immutable(c *Ctx) {
-	rule := "K-C06-master-immutable"
-	isMS := func(v ssa.Value) bool {
-		for {
-			switch x := v.(type) {
-			case *ssa.Slice:
-				v = x.X
+	sharedSliceImmutable(c, "K-C06-master-immutable", "gmtls", "masterSecret", 8,
+		"the master secret's bytes are never written after derivation",
+		"the exporter closure, the session cache and the ticket state share that slice, so exported keying material and resumed sessions change under the application's feet")
+}
+
+// c06Policy: the client-certificate policies that allow a client without certificate do not abort on an empty
+// Certificate message (a necessary condition for those configurations to complete): evaluated per policy value
+func c06Policy(c *Ctx) {
+	rule := "G-C06-policy"
+	for _, name := range []string{"(*serverHandshakeState).doFullHandshake", "(*serverHandshakeStateGM).doFullHandshake"} {
+		f := c.Fn("gmtls", name)
+		if f == nil {
+			c.Missing(rule, "gmtls."+name, "method", "not found")
+			continue
+		}
+		spec, _ := defaultResultSpec(f)
+		ee := emptyCertListEdges(f)
+		if len(ee) != 1 {
+			c.Undecided(rule, fname(f), "the test for an empty client certificate list", fmt.Sprintf("%d tests found", len(ee)), f.Pos())
+			continue
+		}
+		for _, pol := range []string{"RequestClientCert", "VerifyClientCertIfGiven"} {
+			k, okc := pkgConst(c, "gmtls", pol)
+			if !okc {
+				c.Missing(rule, "gmtls."+pol, "constant", "not found")
 				continue
-			case *ssa.UnOp:
-				if x.Op == token.MUL {
-					if fa, ok := x.X.(*ssa.FieldAddr); ok {
-						n := fieldName(fa.X.Type(), fa.Field)
-						return n == "masterSecret"
-					}
-				}
-				return false
-			case *ssa.Phi:
-				for _, e := range x.Edges {
-					if u, ok := e.(*ssa.UnOp); ok && u.Op == token.MUL {
-						if fa, ok := u.X.(*ssa.FieldAddr); ok && fieldName(fa.X.Type(), fa.Field) == "masterSecret" {
-							return true
-						}
-					}
-				}
-				return false
 			}
-			return false
+			c.Evals++
+			r, _ := canReachSuccess(ee[0].to, &ee[0], successExits(f, spec), fieldValueCut(f, "ClientAuth", k))
+			c.Check(r, rule, fname(f), "a client without certificate can complete under "+pol, "", "with ClientAuth == "+pol+" every path after an empty Certificate message aborts: a configuration the policy allows never completes", f.Pos())
 		}
-	}
-	n := 0
-	bad := 0
-	for _, f := range c.P.RepoFuncs("gmtls") {
-		if strings.HasSuffix(c.P.relFile(f.Pos()), "_test.go") {
-			continue
-		}
-		touches := false
-		instrsOf(f, func(_ *ssa.BasicBlock, in ssa.Instruction) {
-			if fa, ok := in.(*ssa.FieldAddr); ok && fieldName(fa.X.Type(), fa.Field) == "masterSecret" {
-				touches = true
-			}
-		})
-		if !touches {
-			continue
-		}
-		n++
-		c.Evals++
-		var where ssa.Instruction
-		instrsOf(f, func(_ *ssa.BasicBlock, in ssa.Instruction) {
-			switch x := in.(type) {
-			case *ssa.Store:
-				if ia, ok := x.Addr.(*ssa.IndexAddr); ok && isMS(ia.X) {
-					where = x
-				}
-			case *ssa.Call:
-				if bi, ok := x.Call.Value.(*ssa.Builtin); ok {
-					switch bi.Name() {
-					case "copy", "clear":
-						if isMS(x.Call.Args[0]) {
-							where = x
-						}
-					case "append":
-						if isMS(x.Call.Args[0]) && !appendIsFresh(x.Call.Args[0]) {
-							where = x
-						}
-					}
-				}
-			}
-		})
-		if where != nil {
-			bad++
-			c.Violated(rule, fname(f), "the master secret's bytes are never written after derivation", "the bytes of a master secret are overwritten at "+c.P.pos(where.Pos())+": the exporter closure, the session cache and the ticket state share that slice, so exported keying material and resumed sessions change under the application's feet", where.Pos())
-		} else {
-			c.Holds(rule, fname(f), "the master secret's bytes are never written after derivation", "only whole-slice assignments", f.Pos())
-		}
-	}
-	if n < 8 {
-		c.Undecided(rule, "gmtls", "functions touching a master secret", fmt.Sprintf("only %d found", n), token.NoPos)
 	}
 }
